@@ -347,7 +347,7 @@ theorem computeInfo_pr (H) (mask : Nat) (bits : List Bool) (hm : mask < 8)
   obtain ⟨s1, s2⟩ := spec_pruned H mask bits hm l hl
   obtain ⟨f1, f2, f3, f4, f5, f6⟩ := pruned_facts mask hm l (by omega)
   rw [s1, s2]
-  simp only [HashInfo.hashAt, HashInfo.depthAt, if_true, parsedBuf]
+  simp only [HashInfo.hashAt, HashInfo.depthAt, if_true]
   by_cases hlv : l < Spec.level mask
   · have hne := f2.mpr hlv
     rw [if_pos hne, if_pos hne, if_pos hlv, if_pos hlv]
@@ -357,17 +357,23 @@ theorem computeInfo_pr (H) (mask : Nat) (bits : List Bool) (hm : mask < 8)
     generalize Spec.popcount (Spec.maskBelow mask l) = k at *
     rw [f4]
     generalize Spec.popcount mask = n at *
-    have h1 : 2 + (k + 1) * 32 ≤ (Bits.bitsToBytes bits).length := by omega
-    have h2 : 2 + 32 * n + k * 2 + 2 ≤ (Bits.bitsToBytes bits).length := by omega
+    -- the buffer is the data bytes followed by zero padding; everything read lies inside the data bytes
+    have hbuf : parsedBuf bits = Bits.bitsToBytes bits ++ List.replicate (bufBytes - (Bits.bitsToBytes bits).length) 0 := rfl
+    rw [hbuf]
+    simp only [Spec.storedHash, Spec.storedDepth]
+    generalize Bits.bitsToBytes bits = b at *
+    generalize List.replicate (bufBytes - b.length) (0 : UInt8) = pad
+    have h1 : 2 + (k + 1) * 32 ≤ (b ++ pad).length := by simp only [List.length_append]; omega
+    have h2 : 2 + 32 * n + k * 2 + 2 ≤ (b ++ pad).length := by simp only [List.length_append]; omega
     simp only [h1, h2, ↓reduceIte]
     constructor
-    · simp [Spec.storedHash, Nat.mul_comm]
-    · have a1 : 2 + 32 * n + k * 2 < (Bits.bitsToBytes bits).length := by omega
-      have a2 : 2 + 32 * n + k * 2 + 1 < (Bits.bitsToBytes bits).length := by omega
-      have b1 : 2 + 32 * n + 2 * k < (Bits.bitsToBytes bits).length := by omega
-      have b2 : 2 + 32 * n + 2 * k + 1 < (Bits.bitsToBytes bits).length := by omega
-      simp only [Spec.storedDepth, Nat.mul_comm k 2, List.getD_eq_getElem?_getD]
-      rw [List.getElem?_eq_getElem b1, List.getElem?_eq_getElem b2]
+    · simp only [Nat.mul_comm k 32]
+      rw [List.drop_append_of_le_length (by omega), List.take_append_of_le_length (by simp only [List.length_drop]; omega)]
+    · have b1 : 2 + 32 * n + 2 * k < b.length := by omega
+      have b2 : 2 + 32 * n + 2 * k + 1 < b.length := by omega
+      simp only [Nat.mul_comm k 2, List.getD_eq_getElem?_getD]
+      rw [List.getElem?_append_left b1, List.getElem?_append_left b2,
+        List.getElem?_eq_getElem b1, List.getElem?_eq_getElem b2]
       rfl
   · have he : ¬ (LevelMask.hashIndex (LevelMask.apply mask l) ≠ LevelMask.hashIndex mask) := fun h => hlv (f2.mp h)
     rw [if_neg he, if_neg he, if_neg hlv, if_neg hlv]
